@@ -22,13 +22,22 @@ use crate::{
 };
 
 /// bound on waiting for a completion the harness itself has enabled; it only ever elapses on a failure
-pub const WATCHDOG: Duration = Duration::from_millis(5000);
+pub const WATCHDOG: Duration = Duration::from_millis(20_000);
 static EXPIRIES: std::sync::atomic::AtomicU32 = std::sync::atomic::AtomicU32::new(0);
 
 /// after a few expiries in one run the remaining ones are cut short (a failing tree would otherwise
 /// spend the whole budget sleeping); a violation is re-validated with the full watchdog anyway
 fn watchdog() -> Duration {
-    if EXPIRIES.load(std::sync::atomic::Ordering::Relaxed) >= 4 { WATCHDOG / 5 } else { WATCHDOG }
+    if EXPIRIES.load(std::sync::atomic::Ordering::Relaxed) >= 4 { WATCHDOG / 10 } else { WATCHDOG }
+}
+
+pub fn expiries() -> u32 {
+    EXPIRIES.load(std::sync::atomic::Ordering::Relaxed)
+}
+
+/// violation classes that rest on a watchdog expiry (candidates until they reproduce)
+pub fn is_timeout_key(key: &str) -> bool {
+    key.contains(":liveness:") || key.contains(":no-eof") || key.contains("harvest:unsettled")
 }
 
 pub fn reset_watchdog() {
@@ -51,6 +60,19 @@ impl From<String> for Abort {
 
 type R<T> = Result<T, Abort>;
 
+/// path of this binary, resolved once at start-up (a rebuild while the check runs must not matter)
+pub fn exe_path() -> String {
+    static EXE: std::sync::OnceLock<String> = std::sync::OnceLock::new();
+    EXE.get_or_init(|| {
+        std::env::current_exe()
+            .unwrap_or_else(|e| vcore::machinery_error(&format!("current_exe: {e}")))
+            .to_string_lossy()
+            .trim_end_matches(" (deleted)")
+            .to_string()
+    })
+    .clone()
+}
+
 pub fn tmp_root() -> PathBuf {
     let base = std::env::var_os("TMPDIR").map(PathBuf::from).unwrap_or_else(|| PathBuf::from("/tmp"));
     base.join(format!("e_c20-{}", std::process::id()))
@@ -72,10 +94,7 @@ pub struct Worker {
 
 impl Worker {
     pub fn new(idx: usize) -> Worker {
-        let exe = std::env::current_exe()
-            .unwrap_or_else(|e| vcore::machinery_error(&format!("current_exe: {e}")))
-            .to_string_lossy()
-            .to_string();
+        let exe = exe_path();
         let dir = tmp_root().join(format!("w{idx}"));
         std::fs::create_dir_all(&dir).unwrap_or_else(|e| vcore::machinery_error(&format!("mkdir {dir:?}: {e}")));
         let sock = dir.join("ctl.sock");
@@ -258,20 +277,30 @@ struct Run<'a> {
     steps: u64,
     in_epilogue: bool,
     counters: Vec<&'static str>,
+    /// the harness had to kill the child to get the runtime thread back: stop judging
+    poisoned: bool,
 }
 
-fn thread_blocked_in_write(tid: i32) -> Option<i32> {
+/// If the thread sleeps inside a system call: (syscall number, first argument).
+fn thread_sleeping_in_syscall(tid: i32) -> Option<(i64, i64)> {
     let s = std::fs::read_to_string(format!("/proc/self/task/{tid}/syscall")).ok()?;
     let mut it = s.split_whitespace();
     let nr = it.next()?.parse::<i64>().ok()?;
-    if nr != libc::SYS_write {
+    if nr < 0 {
         return None;
     }
     let a0 = it.next()?;
-    let fd = i64::from_str_radix(a0.trim_start_matches("0x"), 16).ok()? as i32;
+    let a0 = i64::from_str_radix(a0.trim_start_matches("0x"), 16).ok()?;
     let stat = std::fs::read_to_string(format!("/proc/self/task/{tid}/stat")).ok()?;
     let state = stat.rsplit(')').next()?.split_whitespace().next()?.to_string();
-    if state == "S" { Some(fd) } else { None }
+    if state == "S" { Some((nr, a0)) } else { None }
+}
+
+fn thread_blocked_in_write(tid: i32) -> Option<i32> {
+    match thread_sleeping_in_syscall(tid) {
+        Some((nr, a0)) if nr == libc::SYS_write => Some(a0 as i32),
+        _ => None,
+    }
 }
 
 impl<'a> Run<'a> {
@@ -356,7 +385,12 @@ impl<'a> Run<'a> {
                     }
                     return Err(Abort::Mach(format!("{what}: {m}")));
                 }
-                Ok(r) => return Ok(r),
+                Ok(r) => {
+                    if self.poisoned {
+                        return Err(Abort::Vio);
+                    }
+                    return Ok(r);
+                }
                 Err(RecvTimeoutError::Disconnected) => return Err(Abort::Mach("subject thread died".into())),
                 Err(RecvTimeoutError::Timeout) => {}
             }
@@ -398,8 +432,20 @@ impl<'a> Run<'a> {
                     }
                 }
             }
-            if start.elapsed() > Duration::from_secs(20) {
-                return Err(Abort::Mach(format!("{what}: subject thread did not answer within 20 s")));
+            if let Some((nr, _)) = thread_sleeping_in_syscall(self.tid) {
+                if (nr == libc::SYS_wait4 || nr == libc::SYS_waitid) && self.kid.alive && start.elapsed() > Duration::from_millis(50) {
+                    // the runtime thread itself waits for the child: it will not return before the child ends
+                    self.vio(
+                        "wait-blocks-runtime-thread",
+                        format!("during {what} the runtime thread went to sleep inside wait4/waitid for the live child: the whole runtime is stalled until the child ends"),
+                    );
+                    self.kid.kill_and_reap();
+                    self.dead = true;
+                    self.poisoned = true;
+                }
+            }
+            if start.elapsed() > Duration::from_secs(60) {
+                return Err(Abort::Mach(format!("{what}: subject thread did not answer within 60 s")));
             }
         }
     }
@@ -1018,6 +1064,7 @@ pub fn execute(w: &mut Worker, plan: &Plan) -> ExecResult {
         steps: 0,
         in_epilogue: false,
         counters: vec![],
+        poisoned: false,
     };
     let mut r: R<()> = Ok(());
     for st in plan.steps.iter() {
